@@ -6,14 +6,22 @@
                   as a string value and as an element of a sequence, in every mode.
      k = "word" : every shell word the two encoder designs of EnvTransfer_Quote produce for texts
                   of at most MaxWord characters and that the bash model calls literal; the driver
-                  has the real bash decode them (binding of the model, clause BashModel).        *)
-EXTENDS EnvTransfer_Quote, TLC, Json, IOUtils, SequencesExt, FiniteSets
-CONSTANTS MaxLen, MaxWord
+                  has the real bash decode them (binding of the model, clause BashModel).
+     k = "sess" : every session shape of SessLen transfers through ONE processor object: how each
+                  mapping carries the non-exported marker (naming variables / absent / empty) and, for
+                  each, every per-variable history that fits (one variable per history).              *)
+EXTENDS EnvTransfer, EnvTransfer_Quote, TLC, Json, IOUtils, SequencesExt
+CONSTANTS MaxLen, MaxWord, SessLen
 VAlphabet == {113, 110, 48, 39, 34, 92, 36, 96, 32, 10, 9, 233, 28450}
 VTexts == UNION {[1..k -> VAlphabet] : k \in 0..MaxLen}
 WTexts == UNION {[1..k -> QAlphabet] : k \in 0..MaxWord}
 Words == {w \in UNION {{StrAsIs(v), StrFixed(v), ElemAsIs(v), ElemFixed(v)} : v \in WTexts} : Word(w).ok}
-Cases == {[k |-> "val", cp |-> v, w |-> <<>>] : v \in VTexts}
-         \cup {[k |-> "word", cp |-> <<>>, w |-> w] : w \in Words}
+\* sessions: every way the SessLen mappings of a session can carry the marker, each with EVERY
+\* variable history (absent / string / sequence, exported / marked, per step) that fits it
+Sessions == {[k |-> "sess", cp |-> <<>>, w |-> <<>>, mk |-> mk,
+              hists |-> SetToSeq({h \in [1..SessLen -> NameStates] : Fits(h, mk)})] : mk \in [1..SessLen -> MarkerKinds]}
+Cases == {[k |-> "val", cp |-> v, w |-> <<>>, mk |-> <<>>, hists |-> <<>>] : v \in VTexts}
+         \cup {[k |-> "word", cp |-> <<>>, w |-> w, mk |-> <<>>, hists |-> <<>>] : w \in Words}
+         \cup Sessions
 ASSUME ndJsonSerialize(IOEnv.OUT, SetToSeq(Cases))
 =============================================================================
